@@ -305,7 +305,7 @@ def check_independence(ctx):
     for q in sorted(clo):
         fi = m.functions[q]
         rep.functions.add(q)
-        ws = effects.nonlocal_writes(fi)
+        ws = effects.nonlocal_writes(fi, model=m, strict=True)
         rep.add('A6', fi.site(ws[0][0] if ws and isinstance(ws[0][0], ast.AST) else None), f'{q.rsplit(".", 2)[-2] + "." + fi.name if fi.cls else fi.name}: writes nothing outside its own locals (row content cannot depend on other rows or on call order)',
                 not ws, expected='no store to parameters / globals / self', found=[d for _, d in ws][:4], stmt=f'effects {q}', construct=q)
     # module-level mutable state in these modules that the closure reads would also carry context: none is assigned at module level except constants
